@@ -652,8 +652,14 @@ package stree
 //@   ensures  [C01,C03,C04] stopped: !result ==> ncalls(f) > old(ncalls(f)) && !callret(f, ncalls(f) - 1)
 //@   ensures  [C01,C03,C04] finished: result ==> forall j int :: {callret(f, j)} old(ncalls(f)) <= j && j < ncalls(f) ==> callret(f, j)
 //@   ensures  [C01,C03,C04] older: forall j int :: {callarg(f, j)} {callret(f, j)} 0 <= j && j < old(ncalls(f)) ==> callarg(f, j) == old(callarg(f, j)) && callret(f, j) == old(callret(f, j))
+//@   ensures  [C01,C03,C04] first: ncalls(f) > old(ncalls(f)) ==> forall k int :: {k in n.keys} inK(n, k) ==> k >= rank(cmp, callarg(f, old(ncalls(f))))
+//@   ensures  [C01,C03,C04] nogap: forall a int, b int, k int :: {callarg(f, a), callarg(f, b), k in n.keys} old(ncalls(f)) <= a && b == a + 1 && b < ncalls(f) && inK(n, k) ==> !(rank(cmp, callarg(f, a)) < k && k < rank(cmp, callarg(f, b)))
+//@   ensures  [C01,C03,C04] last: result && n != nil ==> ncalls(f) > old(ncalls(f)) && forall k int :: {k in n.keys} inK(n, k) ==> k <= rank(cmp, callarg(f, ncalls(f) - 1))
 //@   modifies calls(f)
 //@   call inorder#1: cmp = cmp
+//@   loop 1: invariant [C01,C03,C04] first: ncalls(f) > old(ncalls(f)) ==> forall k int :: {k in old(n).keys} inK(old(n), k) ==> k >= rank(cmp, callarg(f, old(ncalls(f))))
+//@   loop 1: invariant [C01,C03,C04] nogap: forall a int, b int, k int :: {callarg(f, a), callarg(f, b), k in old(n).keys} old(ncalls(f)) <= a && b == a + 1 && b < ncalls(f) && inK(old(n), k) ==> !(rank(cmp, callarg(f, a)) < k && k < rank(cmp, callarg(f, b)))
+//@   loop 1: invariant [C01,C03,C04] covered: forall k int :: {k in old(n).keys} inK(old(n), k) ==> inK(n, k) || (ncalls(f) > old(ncalls(f)) && k <= rank(cmp, callarg(f, ncalls(f) - 1)))
 //@   loop 1: invariant [C01,C03,C04] older: forall j int :: {callarg(f, j)} {callret(f, j)} 0 <= j && j < old(ncalls(f)) ==> callarg(f, j) == old(callarg(f, j)) && callret(f, j) == old(callret(f, j))
 //@   loop 1: invariant [C01,C03,C04] shape: treeOK(old(n), cmp) && (n != nil ==> old(n) != nil && n in old(n).desc)
 //@   loop 1: invariant [C01,C03,C04] count: ncalls(f) >= old(ncalls(f)) && ncalls(f) - old(ncalls(f)) + cntOf(n) == cntOf(old(n))
